@@ -147,6 +147,11 @@ func canon(s []span) ([]span, error) {
 			if this.maxOpen && next.minOpen {
 				continue
 			}
+			// A shared bound with a prerelease is what admits the prereleases
+			// of that version; merging would drop it from the set.
+			if this.max.equal(next.min) && len(this.max.pre) > 0 && !this.min.equal(this.max) && !next.min.equal(next.max) {
+				continue
+			}
 			// Merging prereleases and non-preleases is tricky, so avoid it.
 			// Three tests to make.
 			if !equalPrerelease(this.min, this.max) || !equalPrerelease(this.min, next.min) || !equalPrerelease(this.min, next.max) {
